@@ -31,6 +31,7 @@ import (
 	"go.uber.org/zap"
 	"google.golang.org/grpc"
 	"google.golang.org/grpc/codes"
+	"google.golang.org/grpc/metadata"
 	"google.golang.org/grpc/reflection"
 	"google.golang.org/grpc/status"
 	"gopkg.in/yaml.v2"
@@ -72,6 +73,20 @@ type Server struct {
 	// Refuse: every unary call is answered with codes.Unavailable without reaching the service (what a gun sees when
 	// the target is gone; the listener stays open, so the port cannot be taken over by another case's target)
 	Refuse atomic.Bool
+
+	// Script (mode=isolate): the successive Hello calls WITHOUT an x-echo metadata entry are answered with these greetings
+	// ("" = an empty greeting); Hello calls with x-echo are recorded (what the instance made of its earlier answer)
+	smu    sync.Mutex
+	Script []string
+	next   int
+	echoes []string
+}
+
+// Echoes returns what the x-echo calls carried so far.
+func (s *Server) Echoes() []string {
+	s.smu.Lock()
+	defer s.smu.Unlock()
+	return append([]string(nil), s.echoes...)
 }
 
 func (s *Server) intercept(ctx context.Context, req any, info *grpc.UnaryServerInfo, handler grpc.UnaryHandler) (any, error) {
@@ -79,6 +94,20 @@ func (s *Server) intercept(ctx context.Context, req any, info *grpc.UnaryServerI
 		return nil, status.Error(codes.Unavailable, "target refuses")
 	}
 	s.calls.Add(1)
+	if hr, ok := req.(*server.HelloRequest); ok && s.Script != nil {
+		md, _ := metadata.FromIncomingContext(ctx)
+		s.smu.Lock()
+		defer s.smu.Unlock()
+		if e := md.Get("x-echo"); len(e) > 0 {
+			s.echoes = append(s.echoes, "echo:"+Enc(strings.Join(e, "&"))+",g:"+Enc(strings.Join(md.Get("x-g"), "&"))+",name:"+Enc(hr.GetName()))
+			return &server.HelloResponse{Hello: "ok"}, nil
+		}
+		if s.next < len(s.Script) {
+			v := s.Script[s.next]
+			s.next++
+			return &server.HelloResponse{Hello: v}, nil
+		}
+	}
 	// The example service updates its statistics maps without synchronisation; handlers are serialised so that the
 	// race detector reports concern the load generator, never the target.
 	s.hmu.Lock()
